@@ -92,7 +92,7 @@ KANI_GROUPS = {
             dict(name="vk_trend_strength_signal2_sign", kind="bounded(concrete stream, 5 candles)", timeout=600, props=["C06"]),
             dict(name="vk_trix_constant_candle", kind="bounded(Trix::default(), one concrete candle repeated 3 times)", timeout=600, props=["C08"]),
             dict(name="vk_rvi_constant_candle", kind="bounded(RelativeVigorIndex::default(), one concrete candle repeated 3 times)", timeout=600, props=["C08"]),
-            dict(name="vk_dyn_forwarding_momentum_index", kind="bounded(MomentumIndex(2,1) through dyn dispatch, 3 symbolic steps)", timeout=300, props=["C11"]),
+            dict(name="vk_dyn_forwarding_momentum_index", kind="bounded(MomentumIndex(2,1) through dyn dispatch: 3 symbolic steps, then over() on 2 more, then 1 step)", timeout=300, props=["C11"]),
             dict(name="vk_pivot_reversal_low_pivot_buys", kind="bounded(concrete stream with one low pivot, 4 candles)", timeout=300, props=["C06"]),
         ]),
     "renko": dict(
@@ -401,14 +401,15 @@ PROPS["C18"] = dict(
 )
 
 PROPS["C15"] = dict(
-    verus=["ma_laws", "sma", "wma", "ema", "smm", "ma_instance"],
+    verus=["ma_laws", "sma", "wma", "ema", "smm", "ma_instance", "ma_dispatch", "compose_ma", "swma", "derived_window"],
     claim=("Lemmas over the definitions the code is tied to by C02/C03: SMA and WMA (weights (i+1)/(n(n+1)/2), non-negative, summing to 1) are "
            "affine-equivariant (any a, b, negative a included), range-preserving and additive (superposition) for every length; the EMA recurrence is "
            "affine-equivariant, range-preserving (0 < alpha <= 1) and additive step by step, which carries over to DMA/TMA/RMA/WSMA by composition. "
            "The trait-level facts generic indicators rely on (MovingAverage::convex / within) are proved for SMA, WMA and EMA. "
            "SMM: range preservation (smm_range: the median lies between the bounds of the window values) over the verified median contract. "
            "Range preservation as a one-step fact (every value the instance holds and every output stay within the bounds of the inputs) is proved in unit ma_instance for SMA, WMA, RMA, EMA, DMA, TMA, WSMA, SMM, SWMA, "
-           "TRIMA and Vidya and lifted to the dispatch enum MAInstance; HMA, DEMA, TEMA and LinReg are not range-preserving (they extrapolate) and are marked so."),
+           "TRIMA and Vidya and lifted to the dispatch enum MAInstance; HMA, DEMA, TEMA and LinReg are not range-preserving (they extrapolate) and are marked so. "
+           "That the `MA` wrapper behaves like the kind it names (init builds that kind with that length, next steps it, distinct kinds have distinct type tags) is unit ma_dispatch."),
     assumptions=[REALS, "SWMA, TRIMA, HMA, LinReg, Vidya, VWMA, Conv: no law lemmas yet (HMA/TRIMA follow by composition of the WMA/SMA lemmas but that step is not machine-checked)",
                  "MA enum dispatch (MA::init) is not under contract"],
 )
